@@ -1,6 +1,7 @@
 import PhyModel.Drv.Common
 import PhyModel.Model.Moves
-/-! Handlers for the sampling ops: `prop` (C08), `pg` (C01), `move` (C04). -/
+import PhyModel.Model.Sweep
+/-! Handlers for the sampling ops: `prop` (C08), `pg` (C01), `move` (C04), `sweep` (C04 capstone). -/
 open Lean PhyModel PhyModel.Orders PhyModel.Proposal
 
 namespace PhyModel.Drv
@@ -70,6 +71,19 @@ def handleSampling : Handler := fun op j =>
     let x ← getT j "tree"
     if N = 0 then throw "no particles"
     pure (Json.mkObj [("dist", distJson jT (Moves.subtreeMove { dt := dt, c := c, N := N, θ := θ } x))])
+  | "sweep" => some do
+    -- one iteration of `run.py:_run_main_sampler` with `subtree_update_prob = 0`: exactly the term the theorem
+    -- `Props.C04.full_sweep_invariant` is about, `Sweep.sweepModel r (Sweep.mvOf r) k₁ k₂ x`
+    let dt ← asData (← j.getObjVal? "data")
+    let c ← getCfg j
+    let N ← getNat j "N"
+    let θ ← getRat j "theta"
+    let k₁ ← getNat j "k1"
+    let k₂ ← getNat j "k2"
+    let x ← getT j "tree"
+    if N = 0 then throw "no particles"
+    let r : SMC.Run := { dt := dt, c := c, N := N, θ := θ }
+    pure (Json.mkObj [("dist", distJson jT (Sweep.sweepModel r (Sweep.mvOf r) k₁ k₂ x))])
   | "move" => some do
     let dt ← asData (← j.getObjVal? "data")
     let α ← getRat j "alpha"
